@@ -42,6 +42,29 @@ def _start_state(M, case):
     return psi, rng
 
 
+class _Y0Spy:
+    """pass-through wrapper of truncation._qr_theta_Y0: records whether the expanded bond came out EMPTY"""
+
+    def __init__(self):
+        from tenpy.linalg import truncation
+        self.mod = truncation
+        self.orig = truncation._qr_theta_Y0
+        self.empty = False
+
+    def __enter__(self):
+        def spy(*a, **kw):
+            y = self.orig(*a, **kw)
+            if 0 in y.shape:
+                self.empty = True
+            return y
+        self.mod._qr_theta_Y0 = spy
+        return self
+
+    def __exit__(self, *exc):
+        self.mod._qr_theta_Y0 = self.orig
+        return False
+
+
 def dense_report(theta, T_Lc, S, T_Rc, form, err, renorm, chi_max):
     """numbers about one decomposition, dense numpy only"""
     th = theta.to_ndarray()
@@ -97,15 +120,17 @@ def run_qr_direct(case):
         theta = theta * case['scale']          # unnormalised input: the error is relative
     theta = theta.combine_legs([['vL', 'p0'], ['p1', 'vR']], qconj=[+1, -1])
     tp = {k: v for k, v in case['trunc'].items() if v != 'absent'}
+    y0 = _Y0Spy()
     try:
-        T_Lc, S_qr, T_Rc, form, err, ren = truncation.decompose_theta_qr_based(
-            old_qtotal_L=old_T_L.qtotal, old_qtotal_R=old_T_R.qtotal, old_bond_leg=old_T_R.get_leg('vL'),
-            theta=theta, move_right=case['move_right'], expand=case['expand'],
-            min_block_increase=case['min_block_increase'], use_eig_based_svd=case['eig'],
-            trunc_params=dict(tp), compute_err=case['compute_err'], return_both_T=case['both'])
+        with y0:
+            T_Lc, S_qr, T_Rc, form, err, ren = truncation.decompose_theta_qr_based(
+                old_qtotal_L=old_T_L.qtotal, old_qtotal_R=old_T_R.qtotal, old_bond_leg=old_T_R.get_leg('vL'),
+                theta=theta, move_right=case['move_right'], expand=case['expand'],
+                min_block_increase=case['min_block_increase'], use_eig_based_svd=case['eig'],
+                trunc_params=dict(tp), compute_err=case['compute_err'], return_both_T=case['both'])
     except Exception as e:
         import traceback
-        return {'error': type(e).__name__ + ': ' + str(e)[:150], 'tb': traceback.format_exc()[-600:]}
+        return {'error': type(e).__name__ + ': ' + str(e)[:150], 'tb': traceback.format_exc()[-600:], 'empty_Y0': y0.empty}
     out = dense_report(theta, T_Lc, S_qr, T_Rc, form, err, ren, tp.get('chi_max'))
     out['chi_old'] = int(old_T_R.get_leg('vL').ind_len)
     return out
@@ -137,24 +162,27 @@ def run_qr_engine(case):
             'compute_err': case['compute_err'], 'use_eig_based_svd': case['eig']}
     if case.get('expand_0') is not None:
         opts['cbe_expand_0'] = case['expand_0']
-    if case.get('imag'):
-        opts['delta_tau_list'] = [0.1, 0.01]
-        opts['N_steps'] = 1
     norm0 = float(psi.norm)
     tebd.decompose_theta_qr_based = spy
+    y0 = _Y0Spy()
+    y0.__enter__()
     try:
         eng = tebd.QRBasedTEBDEngine(psi, M, opts)
         if case.get('imag'):
-            eng.run_GS()
+            # what run_GS does for a finite chain, for a fixed number of sweeps (run_GS itself iterates to convergence)
+            eng.calc_U(2, case.get('dt', 0.1), type_evo='imag')
+            tot = eng.update_imag(case.get('N_steps', 1), call_canonical_form=False)
         else:
             eng.run()
-        tot = eng.trunc_err
+            tot = eng.trunc_err
         bonds = [float(e.eps) for e in eng._trunc_err_bonds]
     except Exception as e:
         import traceback
-        return {'error': type(e).__name__ + ': ' + str(e)[:150], 'tb': traceback.format_exc()[-600:]}
+        return {'error': type(e).__name__ + ': ' + str(e)[:150], 'tb': traceback.format_exc()[-600:], 'empty_Y0': y0.empty,
+                'calls_before': len(calls)}
     finally:
         tebd.decompose_theta_qr_based = orig
+        y0.__exit__()
     return {'calls': calls, 'total_eps': float(tot.eps), 'bond_eps': bonds, 'norm0': norm0,
             'norm': float(psi.norm), 'norm_err': float(np.max(psi.norm_test())),
             'chi': [int(c) for c in psi.chi]}
